@@ -359,7 +359,7 @@ class Program:
                             cands.append(meth)
                     if cands:
                         return cands
-                    return self._by_method_name(m)
+                    return self._by_method_name(m, call)
                 r = None
                 if fi is None or recv.id not in fi.params:
                     r = self.resolve_name(mi, recv.id)
@@ -386,14 +386,19 @@ class Program:
                     return [('ext', r[1] + dotted[len(head):])]
                 if isinstance(r, ModuleInfo):
                     return [('ext', r.name + dotted[len(head):])]
-            return self._by_method_name(m)
+            return self._by_method_name(m, call)
         return []
 
-    def _by_method_name(self, m):
+    def _by_method_name(self, m, call=None):
         cands = []
         for ci in self.classes.values():
             if m in ci.methods:
                 cands.append(ci.methods[m])
+        if call is not None and len(cands) > 1:
+            # a candidate that cannot accept the call's keywords / argument count would raise TypeError
+            ok = [f for f in cands if _accepts(f, call)]
+            if ok:
+                cands = ok
         return cands or [('method', m)]
 
     def callers_of(self, target):
@@ -473,6 +478,19 @@ class CallSite:
     def __repr__(self):
         return '<call %s in %s at %s>' % (ast.unparse(self.node.func), self.caller.qual if self.caller else '<module>',
                                          self.where)
+
+
+def _accepts(fi, call):
+    params = list(fi.params)
+    if fi.kind in ('method', 'classmethod', 'property') and params:
+        params = params[1:]
+    if fi.node.args.kwarg is None:
+        for k in call.keywords:
+            if k.arg is not None and k.arg not in params:
+                return False
+    if fi.node.args.vararg is None and len([a for a in call.args if not isinstance(a, ast.Starred)]) > len(params):
+        return False
+    return True
 
 
 def _dotted(node):
